@@ -121,6 +121,47 @@ impl Prop for C07 {
             }
             return Scn { kind, cap: 2 * n + 16, conns, order, via_loop: false, boundaries: vec![] };
         }
+        // staggered expiry under exact capacity (TCP and unified analyzers, one run in 150): m connections whose
+        // timestamp references are taken 100 s apart, a tracker of m-1 entries; the first connection speaks again
+        // after 400 s, the last one starts after the first one's reference has expired (650 s) but before the
+        // second one's has, and then the others speak again. At no time are more than m-1 entries alive.
+        if matches!(kind, Kind::Tcp | Kind::Unified) && r.chance(1, 150) {
+            let m = r.urange(3, 5);
+            let s_ns = 1_000_000_000u64;
+            let mut conns: Vec<Conn> = vec![];
+            let mut events: Vec<(u64, usize)> = vec![]; // (absolute time, connection)
+            for i in 0..m {
+                let client = crate::pkt::Endpoint::v4(10, 0, 0, 1 + i as u8, 40000 + i as u16);
+                let server = crate::pkt::Endpoint::v4(10, 0, 0, 10, 80);
+                let hc = crate::gen::tcp::Host { profile: *r.pick(&[0usize, 3, 4]), ts_hz: *r.pick(&[100u32, 250, 1000]), ts_base: r.u32() >> 2, ttl: 64 };
+                let hs = crate::gen::tcp::Host { profile: 1, ts_hz: 0, ts_base: 0, ttl: 128 };
+                let start = if i + 1 == m { 650 * s_ns } else { i as u64 * 100 * s_ns };
+                let mut times = vec![start, start + 20_000_000];
+                if i == 0 {
+                    times.push(400 * s_ns + r.below(50) * s_ns);
+                } else if i + 1 < m {
+                    times.push(655 * s_ns + i as u64 * 5 * s_ns + r.below(4) * s_ns);
+                } else {
+                    times.push(start + 2 * s_ns);
+                }
+                let mut steps = vec![];
+                let mut prev = 0u64;
+                for (k, t) in times.iter().enumerate() {
+                    let seg = match k {
+                        0 => crate::gen::tcp::syn(&hc, client, server, 1000, *t),
+                        1 => crate::gen::tcp::syn_ack(&hs, client, server, 5000, 1000, *t, 0),
+                        _ => crate::gen::tcp::data(&hc, client, server, 1001, 5001, vec![], *t, 0, crate::pkt::ACK),
+                    };
+                    steps.push(conn::Step { dt_ns: *t - prev, seg });
+                    prev = *t;
+                    events.push((*t, i));
+                }
+                conns.push(Conn { kind: ConnKind::TcpOnly, client, server, framing: Framing::Ethernet, steps, raw_override: vec![] });
+            }
+            events.sort();
+            let order: Vec<usize> = events.iter().map(|e| e.1).collect();
+            return Scn { kind, cap: m - 1, conns, order, via_loop: false, boundaries: vec![] };
+        }
         let n = r.urange(2, 8);
         let v6 = r.chance(1, 5);
         let eps = conn::endpoints(r, n, v6);
@@ -303,6 +344,9 @@ impl Prop for C07 {
             }
         }
         st.probe_n("connections_producing_results", producing);
+        if s.cap < s.conns.len() {
+            st.fault("staggered_expiry_under_exact_capacity");
+        }
         if s.conns.len() >= 1000 {
             st.fault_n("population_of_simultaneously_open_connections", s.conns.len() as u64);
         }
